@@ -7,7 +7,11 @@ LEVEL = 'proof'
 RULE = ('strings are drawn per character from weighted classes (plain, ok-punctuation, blank, single quote, sh-special, '
         'Make-special, backslash, non-ASCII word / non-word / space), lengths 0..10, plus a corpus of corner cases; '
         'a case is non-trivial when it contains at least one character outside [A-Za-z0-9_] and distinct by its exact text')
-TRUSTED = ('R model Shell/Sh.v validated against /bin/dash on this run', )
+TRUSTED = ('R model Shell/Sh.v validated against /bin/dash on this run',
+           'R models Make/MakeRead.v and Make/MakeCall.v (define bodies, $(call ...) argument splitting, binding, body expansion, '
+           'recipe lines) validated against /usr/bin/make on this run; call recipes whose command line ends in a backslash or lets $$ '
+           'reach sh are outside the validated fragment',
+           'nested test drivers: each nesting level is run by the real dash in the oracle; a one-word child is a file argument')
 EXPLANATION = ''
 
 CORPUS_WORDS = ['', "'", "''", "'''", "a'", "'a", "'a'", "a'b", "''a", "a''", "' '", "\\", "\\'", "'\\''", "$", "$$", "#",
@@ -289,7 +293,11 @@ def stage_r_make(rep, rng, n):
         if rng.random() < 0.6:
             s = s.replace('$', '$$')
         texts.append(s)
-    texts = [t for t in texts if '\n' not in t and '\0' not in t and '\r' not in t and not t.endswith('\\')]
+    # GNU Make takes ONE BYTE after an unescaped $ as the variable name: a non-ASCII character there is outside the fragment of
+    # MakeRead.expand (the writer always doubles $)
+    import re as _re
+    texts = [t for t in texts if '\n' not in t and '\0' not in t and '\r' not in t and not t.endswith('\\')
+             and not _re.search(r'(?<!\$)(\$\$)*\$[^\x00-\x7f]', t)]
     calls = [('make.assign_value', [[], t]) for t in texts]
     raw = common.model_batch(calls)
     acc = 0
